@@ -19,10 +19,11 @@ Cur == Ev[l]
 
 MInit ==
   /\ tid \in 1..NT /\ l = 1
-  /\ skp = [p \in Pipes |-> Batch[tid].skp[p]]
-  /\ reg = [p \in Pipes |-> Batch[tid].reg[p]]
-  /\ kk  = [p \in Pipes |-> Batch[tid].kk[p]]
-  /\ ObsInit([p \in Pipes |-> Batch[tid].pc0[p]])
+  /\ np = Batch[tid].np /\ tt = Batch[tid].tt
+  /\ skp = [p \in 1..Batch[tid].np |-> Batch[tid].skp[p]]
+  /\ reg = [p \in 1..Batch[tid].np |-> Batch[tid].reg[p]]
+  /\ kk  = [p \in 1..Batch[tid].np |-> Batch[tid].kk[p]]
+  /\ ObsInit([p \in 1..Batch[tid].np |-> Batch[tid].pc0[p]])
 
 MNext ==
   /\ l <= Len(Ev) /\ l' = l + 1 /\ UNCHANGED <<tid, cfgvars>>
